@@ -371,3 +371,58 @@ Theorem C05_source_world_output_file : forall (OS : os_ops), always_fresh OS ->
   end.
 Proof. exact cw_OutputFile_eq. Qed.
 Print Assumptions C05_source_world_output_file.
+
+(* Cache.get / Get as translated (verify mode off) = run_prog of the model's get_prog: Open; the
+   Read calls of io.ReadFull; on a well-formed entry for this id the refresh (used) and then the
+   deferred Close; otherwise Close alone; no Close after a failed Open.  A hit hands back the
+   decoded entry (output id of 32 bytes), a miss the zero Entry and an entryNotFoundError.
+   Premises: the contract of os.File.Read and fresh modification times (SrcWorld.v). *)
+From GI Require Import Cache.SrcWorldGet.
+Theorem C05_source_world_get : forall (OS : os_ops), read_contract OS -> always_fresh OS ->
+  forall fuel (w : World OS) (c : cw_Cache) (id : bytes) h o,
+  length id = 32%nat -> (21 <= fuel)%nat ->
+  match run_prog OS (cw_Cache_dir c) (get_prog id) (w, h, o) with
+  | (st, r) =>
+      exists entry err,
+        cw_Cache_Get OS false fuel w c id = GoSem.Ok (st_world OS st, c, entry, err) /\ get_rel r entry err
+        /\ match r with Some (out, _, _) => length out = 32%nat | None => True end
+  end.
+Proof. exact cw_Get_eq. Qed.
+Print Assumptions C05_source_world_get.
+
+(* Cache.GetFile as translated = run_prog of get_file_prog *)
+Theorem C05_source_world_get_file : forall (OS : os_ops), read_contract OS -> always_fresh OS ->
+  forall fuel (w : World OS) (c : cw_Cache) (id : bytes) h o,
+  size_nonneg OS -> length id = 32%nat -> (21 <= fuel)%nat ->
+  match run_prog OS (cw_Cache_dir c) (get_file_prog id) (w, h, o) with
+  | (st, r) =>
+      exists file entry err,
+        cw_Cache_GetFile OS false fuel w c id = GoSem.Ok (st_world OS st, c, file, entry, err)
+        /\ get_file_rel (cw_Cache_dir c) r file entry err
+  end.
+Proof. exact cw_GetFile_eq. Qed.
+Print Assumptions C05_source_world_get_file.
+
+(* Cache.GetBytes as translated = run_prog of get_bytes_prog (H is sha256.Sum256) *)
+Theorem C05_source_world_get_bytes : forall (OS : os_ops) (H : bytes -> bytes), read_contract OS -> always_fresh OS ->
+  forall fuel (w : World OS) (c : cw_Cache) (id : bytes) h o,
+  length id = 32%nat -> (21 <= fuel)%nat ->
+  match run_prog OS (cw_Cache_dir c) (get_bytes_prog H id) (w, h, o) with
+  | (st, r) =>
+      exists data entry err,
+        cw_Cache_GetBytes OS H false fuel w c id = GoSem.Ok (st_world OS st, c, data, entry, err)
+        /\ get_bytes_rel r data entry err
+  end.
+Proof. exact cw_GetBytes_eq. Qed.
+Print Assumptions C05_source_world_get_bytes.
+
+(* C05_get_bytes_sound on the translated GetBytes, for every behaviour of the operating system
+   within the two contracts: bytes handed back with a nil error hash to the output id handed back
+   with them *)
+Theorem C05_source_world_get_bytes_sound : forall (OS : os_ops) (H : bytes -> bytes), read_contract OS -> always_fresh OS ->
+  forall fuel (w : World OS) (c : cw_Cache) (id : bytes) w' c' data entry err,
+  length id = 32%nat -> (21 <= fuel)%nat ->
+  cw_Cache_GetBytes OS H false fuel w c id = GoSem.Ok (w', c', data, entry, err) ->
+  werr_is_nil err = true -> H data = cw_Entry_OutputID entry.
+Proof. exact cw_GetBytes_sound. Qed.
+Print Assumptions C05_source_world_get_bytes_sound.
